@@ -318,3 +318,69 @@ func (r *Run) callBody(fn *ssa.Function, args []Value) Value {
 	defer delete(r.bypass, fn)
 	return r.callFunction(fn, args, nil)
 }
+
+// fixSort converts bit-vector constants coming from init-time (frozen) objects to Int constants when the
+// run is in Int mode. t may be nil (then scalars are taken as unsigned, which is right for bytes).
+func (r *Run) fixSort(v Value, t types.Type) Value {
+	if !r.ts.intMode {
+		return v
+	}
+	switch x := v.(type) {
+	case *Term:
+		if x.w == IntW || x.w == 0 {
+			return x
+		}
+		if !x.IsConst() {
+			panic(unsupported("bit-vector term met in Int mode"))
+		}
+		if t != nil && isSigned(t) {
+			return r.ts.IConst64(sext64(x.k, x.w))
+		}
+		return r.ts.IConstU(x.k)
+	case *StructV:
+		var st *types.Struct
+		if t != nil {
+			st, _ = t.Underlying().(*types.Struct)
+		}
+		for i := range x.f {
+			var ft types.Type
+			if st != nil {
+				ft = st.Field(i).Type()
+			}
+			x.f[i] = r.fixSort(x.f[i], ft)
+		}
+		return x
+	case *ArrayV:
+		var et types.Type
+		if t != nil {
+			if at, ok := t.Underlying().(*types.Array); ok {
+				et = at.Elem()
+			}
+		}
+		for i := range x.e {
+			x.e[i] = r.fixSort(x.e[i], et)
+		}
+		return x
+	case StrV:
+		changed := false
+		for _, b := range x.b {
+			if b.w != IntW {
+				changed = true
+				break
+			}
+		}
+		if !changed {
+			return x
+		}
+		nb := make([]*Term, len(x.b))
+		for i, b := range x.b {
+			nb[i] = r.fixSort(b, nil).(*Term)
+		}
+		return StrV{b: nb}
+	case *IfaceV:
+		if x.typ != nil {
+			return &IfaceV{typ: x.typ, val: r.fixSort(x.val, x.typ)}
+		}
+	}
+	return v
+}
